@@ -169,6 +169,9 @@ class StandardRequestHandler(ControlRequestHandler):
                     self.handle_simple_data_request(m, transmitter, 0, length=2)
 
                 with m.State('CLEAR_FEATURE'):
+                    # Keep track of whether we've sent a status-stage ZLP we're expecting an ACK to.
+                    clear_feature_expecting_ack = Signal()
+
                     # Provide an response to the STATUS stage.
                     with m.If(interface.status_requested):
 
@@ -179,11 +182,19 @@ class StandardRequestHandler(ControlRequestHandler):
                             (setup.value     != USBStandardFeatures.ENDPOINT_HALT)
                         with m.If(stall_condition):
                             m.d.comb += handshake_generator.stall.eq(1)
+                            m.next = 'IDLE'
                         with m.Else():
                             m.d.comb += self.send_zlp()
+                            m.d.usb  += clear_feature_expecting_ack.eq(1)
 
-                    # Accept the relevant value after the packet is ACK'd...
-                    with m.If(interface.handshakes_in.ack):
+                    # If the host issues a new token, it has moved on without ACKing our ZLP.
+                    with m.If(interface.tokenizer.new_token):
+                        m.d.usb += clear_feature_expecting_ack.eq(0)
+
+                    # Accept the relevant value after the packet is ACK'd. Handshake packets carry no
+                    # address; so only an ACK that directly follows our own status-stage ZLP, while our
+                    # IN token is still the current token, counts.
+                    with m.If(interface.handshakes_in.ack & clear_feature_expecting_ack & interface.tokenizer.is_in):
                         m.d.comb += [
                             interface.clear_endpoint_halt.enable   .eq(1),
                             interface.clear_endpoint_halt.direction.eq(setup.index[7]),
@@ -191,6 +202,7 @@ class StandardRequestHandler(ControlRequestHandler):
                         ]
 
                         # ... and then return to idle.
+                        m.d.usb += clear_feature_expecting_ack.eq(0)
                         m.next = 'IDLE'
 
                 # SET_ADDRESS -- The host is trying to assign us an address.
